@@ -28,6 +28,7 @@ type Ctx struct {
 	Rec     *h.Recorder
 	LC      *h.LastCase
 	Replay  *h.Violation // non-nil: replay this single case verbosely
+	Filter  func(cs *h.Case) bool // optional: RunDocs skips cases for which it returns false
 	seq     uint64
 }
 
@@ -101,6 +102,9 @@ func (c *Ctx) RunDocs(fams []string, fn DocFn) {
 		return
 	}
 	sink := func(cs *h.Case) {
+		if c.Filter != nil && !c.Filter(cs) {
+			return
+		}
 		if !c.Mine(cs.Input) {
 			return
 		}
@@ -225,4 +229,16 @@ func deepDirtyBuffer() *rjson.Buffer {
 	rjson.HandleArrayValues(obj, nopArrayHandler{}, &b) // complete 16,000-deep document
 	rjson.HandleObjectValues([]byte(`{"k":`+string(deep)), nopObjectHandler{}, &b)
 	return &b
+}
+
+// bait is what the spare capacity behind an input is filled with when the "results depend only
+// on data[:len]" oracle is applied: bytes that would plausibly continue any token.
+var bait = []byte(`\udc00\udc00"5e5]}],"k":1}0123456789abcdef"]}` + "\x00\x00 \n")
+
+// withBait returns a copy of d that has the bait bytes in its spare capacity (len unchanged).
+func withBait(d []byte) []byte {
+	big := make([]byte, len(d), len(d)+len(bait))
+	copy(big, d)
+	copy(big[len(d):cap(big)], bait)
+	return big
 }
